@@ -34,7 +34,7 @@ def hermitian_mpo(rng, L, qd, exact_vals=True, maxD=2):
     o = mpsgen.rand_mpo(rng, L=L, qd=qd, maxD=maxD, boundary=(0, 0), dtype=str(rng.choice(['float', 'complex'])))
     if not exact_vals:
         from .props.c03 import rnd_like
-        o = rnd_like(rng, o, rng.random() < 0.5)
+        o = rnd_like(rng, o, rng.random() < 0.6)
     return o + dagger(o)
 
 
